@@ -277,3 +277,27 @@ def merge(ex, tables):
             pc = [z3.Or(*[z3.And(*t.pc) if t.pc else z3.BoolVal(True) for t in ts])]
             out.append(Table(pc, ts[0].mgr, ts[0].log, ts[0].events))
     return out
+
+
+def index_invariant(ex, mgr):
+    """reverse index <-> active subscriptions: every requests entry of kind Subscription is the value of exactly one
+    subscriptions entry and vice versa (as a z3 condition; kinds are concrete per path, key equalities symbolic)"""
+    kinds = R.source_tables()["enums"]["Kind"]
+    reqs = mgr.kids.get(R.field_index("RequestManager", "requests"))
+    subs = mgr.kids.get(R.field_index("RequestManager", "subscriptions"))
+    active = []
+    for _, e in MM.entries(reqs):
+        v = ex.read_node(e.kids["v"])
+        if isinstance(v, Node) and "discr" in v.kids:
+            dv = z3.simplify(ex.read_node(v.kids["discr"]))
+            if z3.is_bv_value(dv) and kinds[dv.as_long()] == "Subscription":
+                active.append(e.kids["k"])
+    sub_vals = [e.kids["v"] for _, e in MM.entries(subs)]
+    if len(active) != len(sub_vals):
+        return z3.BoolVal(False)
+    conds = []
+    for a in active:
+        conds.append(z3.Or(*[MM.keq(ex, a, v) for v in sub_vals]) if sub_vals else z3.BoolVal(False))
+    for v in sub_vals:
+        conds.append(z3.Or(*[MM.keq(ex, a, v) for a in active]) if active else z3.BoolVal(False))
+    return z3.And(*conds) if conds else z3.BoolVal(True)
